@@ -469,3 +469,163 @@ def contracts():
                 continue
             cs.append(Linearize(spelling, valkind))
     return cs
+
+
+# ---- function.field / dotarg: tuple shapes of fixed rank with symbolic lengths (bounded) ---------------------------------
+
+class TArr(SObj):
+    """function.Array with a shape of known rank (tuple of symbolic lengths).  transpose / `*` / numpy.sum(axis) /
+    _append_axes follow the numpy shape rules (AXIOMS, see TRUSTED)."""
+
+    def __init__(self, clsname, shape_, dtype_, arguments, classes=('Array',), **extra):
+        super().__init__(clsname, attrs=dict(shape=tuple(shape_), dtype=dtype_, spaces=no_spaces(), arguments=arguments, ndim=len(shape_), **extra), classes=classes,
+                         methods={'transpose': TArr._transpose})
+
+    @staticmethod
+    def _transpose(ctx, self, axes):
+        axes = tuple(axes)
+        n = len(self.attrs['shape'])
+        if sorted(axes) != list(range(n)):
+            raise PyRaise('ValueError', note='transpose%r of an array of rank %d' % (axes, n))
+        return TArr('_Transpose', tuple(self.attrs['shape'][i] for i in axes), self.attrs['dtype'], dict(self.attrs['arguments']))
+
+    def binop(self, ctx, op, other, reflected):
+        if op != '*' or not isinstance(other, TArr):
+            return NotImplemented
+        a, b = (other, self) if reflected else (self, other)
+        sa, sb = list(a.attrs['shape']), list(b.attrs['shape'])
+        n = max(len(sa), len(sb))
+        sa, sb = [1] * (n - len(sa)) + sa, [1] * (n - len(sb)) + sb
+        out = []
+        for x, y in zip(sa, sb):  # numpy broadcasting, axis by axis from the right-aligned shapes
+            eq = ops.compare(ctx, '==', x, y)
+            if ctx.branch(zbool(eq)):
+                out.append(x)
+            elif ctx.branch(zbool(ops.compare(ctx, '==', x, 1))):
+                out.append(y)
+            elif ctx.branch(zbool(ops.compare(ctx, '==', y, 1))):
+                out.append(x)
+            else:
+                raise PyRaise('ValueError', note='cannot broadcast')
+        da, db = a.attrs['dtype'], b.attrs['dtype']
+        p = PROMOTE(da.term, db.term)
+        ctx.assume(z3.Implies(da.term == db.term, p == da.term), axiom='function.multiply metadata for shapes of known rank: numpy broadcasting axis by axis (ValueError when two lengths differ and neither is 1), '
+                   'dtype promotion, arguments = _join_arguments of the operands')
+        arguments = InlineFn('function:_join_arguments')(ctx, [a.attrs['arguments'], b.attrs['arguments']])
+        return TArr('_Wrapper', out, DTerm(p, (type,)), arguments)
+
+
+class NumpyAxis:
+    def sym_getattr(self, ctx, attr):
+        if attr == 'sum':
+            def np_sum(ctx, x, axis):
+                if not (isinstance(x, TArr) and isinstance(axis, int) and not isinstance(axis, bool)):
+                    raise Unsupported('numpy.sum(%r, %r)' % (x, axis))
+                sh = list(x.attrs['shape'])
+                if not -len(sh) <= axis < len(sh):
+                    raise PyRaise('ValueError', note='axis out of range')
+                del sh[axis]
+                ctx.used_axioms.add('numpy.sum(function.Array, axis) removes that axis; dtype int/float/complex, arguments kept')
+                return TArr('_Wrapper', sh, x.attrs['dtype'], dict(x.attrs['arguments']))
+            return np_sum
+        raise Unsupported('numpy.%s is not modelled in C13' % attr)
+
+
+def append_axes(ctx, a, shape_):
+    ctx.used_axioms.add('function._append_axes(a, shape) has shape a.shape + shape, dtype and arguments of a')
+    return TArr('_Wrapper', tuple(a.attrs['shape']) + tuple(shape_), a.attrs['dtype'], dict(a.attrs['arguments']))
+
+
+def make_argument_t(ctx, nm, sh, dt=None, dtype=None):
+    dt = dt if dt is not None else dtype
+    if dt is None:
+        dt = DTerm(DT_CONST[float], (type,))
+    sh = tuple(sh)
+    return TArr('Argument', sh, dt, {nm: (sh, dt)}, classes=('Argument', 'Array'), name=nm)
+
+
+FIELD_CONFIGS = {'no-arrays,shape-rank-1': ((), 1), 'one-matrix,shape-rank-0': ((2,), 0), 'one-vector,shape-rank-1': ((1,), 1), 'two-matrices,shape-rank-1': ((2, 2), 1),
+                 'vector-and-matrix,shape-rank-0': ((1, 2), 0)}
+
+
+class Field(Contract):
+    """field(name, *arrays, shape=, dtype=): the created argument has shape (arrays[0].shape[0], ..., arrays[-1].shape[0]) + shape and the given
+    dtype; the result announces it together with the arguments of the arrays and has shape  shape + arrays[0].shape[1:] + ... + arrays[-1].shape[1:]."""
+    prop = PROP
+    fn = 'function:field'
+
+    def __init__(self, config):
+        self.config = config
+        self.label = config
+        self.bounded = 'arrays of ranks %r, extra shape of rank %d (symbolic lengths); each array has one argument' % FIELD_CONFIGS[config]
+
+    def setup(self, cx):
+        ranks, srank = FIELD_CONFIGS[self.config]
+        nm = name(cx, 'field.name')
+        dt = dtype(cx, 'field.dtype')
+        extra = tuple(SInt(cx.int('shape%d' % i)) for i in range(srank))
+        arrays = []
+        for k, r in enumerate(ranks):
+            sh = tuple(SInt(cx.int('array%d.shape%d' % (k, i))) for i in range(r))
+            an, ash, adt = name(cx, 'array%d.argname' % k), (SInt(cx.int('array%d.arg.len' % k)),), dtype(cx, 'array%d.arg.dtype' % k)
+            arrays.append(TArr('Array', sh, dtype(cx, 'array%d.dtype' % k), {an: (ash, adt)}))
+        for v in list(extra) + [x for a in arrays for x in a.attrs['shape']] + [a.attrs['arguments'][k][0][0] for a in arrays for k in a.attrs['arguments']]:
+            cx.assume(v.v >= 0)
+        S = State(nm=nm, dt=dt, extra=extra, arrays=arrays)
+        S.globals = {'Argument': ClassRef('Argument', construct=make_argument_t), 'numpy': NumpyAxis(), '_append_axes': append_axes, 'field': InlineFn('function:field')}
+        S.args = (nm,) + tuple(arrays)
+        S.kwargs = dict(shape=extra, dtype=dt)
+        return S
+
+    def field_shape(self, S):
+        return tuple(a.attrs['shape'][0] for a in S.arrays) + tuple(S.extra)
+
+    def clash(self, S):
+        """an array depends on an argument of the field's name with another shape/dtype, or two arrays disagree"""
+        fs = self.field_shape(S)
+        entries = [(S.nm, fs, S.dt)] + [(k, v[0], v[1]) for a in S.arrays for k, v in a.attrs['arguments'].items()]
+        cs = []
+        for i in range(len(entries)):
+            for j in range(i + 1, len(entries)):
+                (n1, s1, d1), (n2, s2, d2) = entries[i], entries[j]
+                same_shape = z3.And(*[x.v == y.v for x, y in zip(s1, s2)]) if len(s1) == len(s2) else z3.BoolVal(False)
+                cs.append(z3.And(n1.term == n2.term, z3.Not(z3.And(same_shape, d1.term == d2.term))))
+        return z3.Or(*cs) if cs else z3.BoolVal(False)
+
+    def raises(self, cx, S, e):
+        if e.exc == 'ValueError':
+            return self.clash(S)
+        return False
+
+    def ensures(self, cx, S, result):
+        if not isinstance(result, TArr):
+            raise Unsupported('field returned %r' % (result,))
+        fs = self.field_shape(S)
+        want = tuple(S.extra) + tuple(x for a in S.arrays for x in a.attrs['shape'][1:])
+        got = result.attrs['shape']
+        shape_ok = z3.And(*[zint(x) == zint(y) for x, y in zip(got, want)]) if len(got) == len(want) else z3.BoolVal(False)
+        table = result.attrs['arguments']
+        hits = []
+        for k, v in table.items():
+            if len(v[0]) == len(fs):
+                hits.append(z3.And(k.term == S.nm.term, v[1].term == S.dt.term, *[zint(x) == zint(y) for x, y in zip(v[0], fs)]))
+        others = []
+        for a in S.arrays:
+            for k0, v0 in a.attrs['arguments'].items():
+                others.append(z3.Or(*[z3.And(k.term == k0.term, v[1].term == v0[1].term, zint(v[0][0]) == zint(v0[0][0])) for k, v in table.items() if len(v[0]) == 1] or [z3.BoolVal(False)]))
+        only = z3.And(*[z3.Or(k.term == S.nm.term, *[k.term == k0.term for a in S.arrays for k0 in a.attrs['arguments']]) for k in table])
+        return [('accepted-only-without-clash', z3.Not(self.clash(S))),
+                ('shape-is-shape+trailing-shapes-of-the-arrays', shape_ok),
+                ('announces-the-field-argument-with-the-leading-lengths-of-the-arrays+shape-and-the-dtype', z3.Or(*hits) if hits else z3.BoolVal(False)),
+                ('announces-the-arguments-of-the-arrays-and-nothing-else', z3.And(only, *others))]
+
+    def replay(self, ob):
+        return _script('field(%r)' % (self.fn.split(':')[1],))
+
+
+class Dotarg(Field):
+    fn = 'function:dotarg'
+
+
+def field_contracts():
+    return [Field(c) for c in FIELD_CONFIGS] + [Dotarg('two-matrices,shape-rank-1')]
